@@ -558,6 +558,8 @@ def fromMetaValidate (declIdentSpan : Span) (style? : Option Style) (nFields : N
        | none => [])
   | none =>
       let words := st.variants.filterMap (·.word)
+      -- `Core::validate_body`: the one-flatten rule, for the field list of every variant
+      (st.variants.flatMap (fun v => flattenErrs v.fields)) ++
       (st.variants.filterMap (fun v =>
          if v.style == .tuple && v.fields.length != 1 then
            some ((Err.custom "FromMeta can only be derived for tuple variants with exactly one field").withSpan
